@@ -612,3 +612,218 @@ for state in ('fresh', 'cached'):
         key = '%s::ServerKeys._get_msg_params#%s-%s' % (F, state, desc_kind)
         REGISTRY[key] = REGISTRY.pop('%s::ServerKeys._get_msg_params' % F)
         REGISTRY[key].key = key
+
+
+# ---- the mono events (Pmono): _mono_on / _mono_set / _mono_off .play (C14, C17) -------------------------------------
+# on:   ONE /s_new bundle at the server's latency: instrument, the node id the event was PREPARED with (no new id
+#       here), the action number of the resolved add action, the converted resolved group, the prepared message
+#       parameters; the event is marked playing.  _prepare_event: instrument stored, detuned frequency in place BEFORE
+#       the parameters are taken, ONE fresh node id from the resolved server.
+# set:  ONE /n_set bundle at the latency for the SAME node id: (name, resolved value) for every mono parameter, in
+#       order; the detuned frequency is in place before the values are resolved.
+# off:  ONE bundle at latency + the resolved delay: /n_set id 'gate' <resolved gate> if the synth has a gate, else
+#       /n_free id; the event is marked not playing.
+def mono_getitem(eng, obj, idx, st, node):
+    if is_ev(obj):
+        k = key_of(idx, node)
+        sets = [e for e in st.trace if e[0] == 'set' and e[1] == k]
+        if sets:
+            return [(st, sets[-1][2])]
+        if k == 'server':
+            return [(st, V('obj', oid='server'))]
+        if k == 'msg_params':
+            return [(st, vlist([V('obj', oid='prepared-param0'), V('obj', oid='prepared-param1')]))]
+        if k == 'mono_params':
+            return [(st, V('seq', extra={'len': z3.Int('mono_params.len'), 'facts': [z3.Int('mono_params.len') >= 0],
+                                         'get': (lambda e_, i, s_: V('any', MONO(i)))}))]
+        return [(st, V('obj', oid='stored.' + k))]
+    return None
+
+
+MONO = z3.Function('mono_param', z3.IntSort(), VV.Any)
+HAS_GATE = z3.Bool('res.has_gate')
+
+
+def mono_call(eng, f, args, kwargs, st, node):
+    if is_ev(f) and len(args) == 1:
+        a = args[0]
+        if a.k == 'any':                                   # self(arg) for a mono parameter name
+            r = V('any', z3.Function('resolved_value_of', VV.Any, VV.Any)(a.z))
+            st.trace.append(('resolve-param', a, r))
+            return [(st, r)]
+        k = key_of(a, node)
+        st.trace.append(('resolve', k))
+        if k == 'server':
+            return [(st, V('obj', oid='server'))]
+        if k == 'has_gate':
+            return [(st, vbool(HAS_GATE))]
+        if k == 'delay':
+            return [(st, vreal(RES('delay')))]
+        return [(st, V('obj', oid='res.' + k))]
+    return None
+
+
+def bundle_of(c):
+    sends = [e for e in c.trace if e[0] == 'send_bundle']
+    if len(sends) != 1 or len(sends[0][1]) != 2:
+        return None, None
+    when, conv = sends[0][1]
+    if conv.k != 'obj' or conv.oid != 'converted' or conv.extra['how'] != '_as_osc_arg_list':
+        return None, None
+    return when, conv.extra['of']
+
+
+def sets_of(c):
+    return {e[1]: (i, e[2]) for i, e in enumerate(c.trace) if e[0] == 'set'}
+
+
+def mono_on_post(c):
+    when, msg = bundle_of(c)
+    sets = sets_of(c)
+    if msg is None or when.k != 'real' or [e for e in c.trace if e[0] == 'next-id']:
+        return z3.BoolVal(False)                                                  # no new id at play time
+    ok = (msg.k == 'list' and msg.items is not None and len(msg.items) == 7
+          and msg.items[0].k == 'str' and msg.items[0].py == '/s_new'
+          and msg.items[1].k == 'obj' and msg.items[1].oid == 'stored.instrument'
+          and msg.items[2].k == 'obj' and msg.items[2].oid == 'stored.node_id'    # the id it was prepared with
+          and msg.items[3].k == 'obj' and msg.items[3].oid == 'action-number'
+          and msg.items[3].extra['of'].k == 'obj' and msg.items[3].extra['of'].oid == 'res.add_action'
+          and msg.items[4].k == 'obj' and msg.items[4].oid == 'converted' and msg.items[4].extra['how'] == '_as_control_input'
+          and msg.items[4].extra['of'].k == 'obj' and msg.items[4].extra['of'].oid == 'res.group'
+          and [x.oid for x in msg.items[5:]] == ['prepared-param0', 'prepared-param1']
+          and sets.get('is_playing', (0, NONE))[1].k == 'bool')
+    if not ok:
+        return z3.BoolVal(False)
+    return z3.And(when.z == z3.Real('server.latency'), sets['is_playing'][1].z)
+
+
+MONO_COMMON = dict(hooks={'call': mono_call, 'setitem': ne_setitem, 'getattr': ne_getattr, 'getitem': mono_getitem},
+                   policies={'sc3/synth/_graphparam.py::node_param': ne_node_param}, native=False)
+contract(F, '_MonoOnEvent.play', props=('C14', 'C17'), params={'self': 'self'},
+         ensures=[('one-s_new-bundle-at-latency-for-the-PREPARED-node-id;marked-playing', mono_on_post)],
+         fields={'_MonoOnEvent': {}}, class_modules={'_MonoOnEvent': F}, **MONO_COMMON)
+
+
+def prepare_post(c):
+    t = c.trace
+    sets = sets_of(c)
+    ids = [e for e in t if e[0] == 'next-id']
+    calls = {e[0]: i for i, e in enumerate(t) if e[0] in ('detuned', 'msg-params')}
+    ok = (len(ids) == 1 and 'freq' in sets and 'msg-params' in calls and 'detuned' in calls
+          and sets['freq'][0] < calls['msg-params']                                # detuned frequency first
+          and sets.get('instrument', (0, NONE))[1] is c._params['instrument']
+          and sets.get('node_id', (0, NONE))[1] is ids[0][1]                       # ONE fresh id, kept
+          and sets.get('server', (0, NONE))[1].k == 'obj' and sets['server'][1].oid == 'server'
+          and sets.get('msg_params', (0, NONE))[1].k == 'list'
+          and sets.get('has_gate', (0, NONE))[1].k == 'bool' and z3.eq(sets['has_gate'][1].z, HAS_GATE))   # for the release later
+    return z3.BoolVal(bool(ok))
+
+
+contract(F, '_MonoOnEvent._prepare_event', props=('C14', 'C17'), params={'self': 'self', 'instrument': 'obj'},
+         ensures=[('instrument,detuned-frequency-before-the-parameters,one-fresh-node-id-from-the-resolved-server', prepare_post)],
+         fields={'_MonoOnEvent': {}}, class_modules={'_MonoOnEvent': F}, **MONO_COMMON)
+
+
+def mono_off_post(c):
+    when, msg = bundle_of(c)
+    sets = sets_of(c)
+    if msg is None or when.k != 'real' or msg.k != 'list' or msg.items is None:
+        return z3.BoolVal(False)
+    playing = sets.get('is_playing', (0, NONE))[1]
+    if playing.k != 'bool':
+        return z3.BoolVal(False)
+    base = [when.z == z3.Real('server.latency') + RES('delay'), z3.Not(playing.z)]
+    idv = msg.items[1] if len(msg.items) > 1 else None
+    if idv is None or idv.k != 'obj' or idv.oid != 'stored.node_id':
+        return z3.BoolVal(False)
+    if len(msg.items) == 4:
+        ok = (msg.items[0].k == 'str' and msg.items[0].py == '/n_set' and msg.items[2].k == 'str' and msg.items[2].py == 'gate'
+              and msg.items[3].k == 'obj' and msg.items[3].oid == 'res.gate')
+        return z3.And(z3.BoolVal(bool(ok)), HAS_GATE, *base)
+    if len(msg.items) == 2:
+        ok = msg.items[0].k == 'str' and msg.items[0].py == '/n_free'
+        return z3.And(z3.BoolVal(bool(ok)), z3.Not(HAS_GATE), *base)
+    return z3.BoolVal(False)
+
+
+contract(F, '_MonoOffEvent.play', props=('C14', 'C17'), params={'self': 'self'},
+         ensures=[('gate-off-or-free-for-the-same-node,at-latency+delay;marked-not-playing', mono_off_post)],
+         fields={'_MonoOffEvent': {}}, class_modules={'_MonoOffEvent': F}, **MONO_COMMON)
+
+
+# _update_msg_params: (name, resolved value) per mono parameter, in order
+def ump_new_list(eng, items, st):
+    if items == [] and not [e for e in st.trace if e[0] == 'params-list-made']:
+        st.trace.append(('params-list-made',))
+        return V('ref', cls='ParamList', oid='the-params-list')
+    return None
+
+
+def ump_getattr(eng, obj, name, st, node):
+    if obj.k == 'ref' and obj.cls == 'ParamList' and name == 'extend':
+        def ext(eng, a, kw, st, node):
+            st.trace.append(('extend', a[0]))
+            return [(st, NONE)]
+        return [(st, V('func', py=('spec', ext)))]
+    return ne_getattr(eng, obj, name, st, node)
+
+
+def ump_pass(c, L):
+    if L.phase != 'after':
+        return z3.BoolVal(True)
+    idx = max([i for i, e in enumerate(c.trace) if e[0] == 'loop-head'] or [-1])
+    ev = [e for e in c.trace[idx + 1:] if e[0] in ('extend', 'resolve-param', 'set')]
+    if [e[0] for e in ev] != ['resolve-param', 'extend']:
+        return z3.BoolVal(False)
+    rp, ex = ev
+    k = L.i - 1
+    ok = (ex[1].k == 'list' and ex[1].items is not None and len(ex[1].items) == 2 and ex[1].items[0].k == 'any'
+          and ex[1].items[1] is rp[2] and rp[1].k == 'any')
+    if not ok:
+        return z3.BoolVal(False)
+    return z3.And(ex[1].items[0].z == MONO(k), rp[1].z == MONO(k))           # (name k, the event's value for name k)
+
+
+def ump_over(c, sq, k, elem):
+    return sq.extra['len'] == z3.Int('mono_params.len'), (elem.z == MONO(k) if elem.k == 'any' else z3.BoolVal(False))
+
+
+def ump_post(c):
+    sets = sets_of(c)
+    r = c.resultv
+    ok = r.k == 'ref' and r.oid == 'the-params-list' and sets.get('msg_params', (0, NONE))[1] is r
+    return z3.BoolVal(bool(ok))
+
+
+contract(F, '_MonoSetEvent._update_msg_params', props=('C14', 'C17'), params={'self': 'self'},
+         ensures=[('the-list-is-stored-as-msg_params-and-returned', ump_post)],
+         loops={0: Loop(inv=ump_pass, over=ump_over, kinds={'arg': 'any'})},
+         fields={'_MonoSetEvent': {}, 'ParamList': {}}, class_modules={'_MonoSetEvent': F, 'ParamList': F},
+         **dict(MONO_COMMON, hooks=dict(MONO_COMMON['hooks'], getattr=ump_getattr, new_list=ump_new_list)))
+
+
+def mono_set_post(c):
+    when, msg = bundle_of(c)
+    sets = sets_of(c)
+    ups = [i for i, e in enumerate(c.trace) if e[0] == 'update-params']
+    if msg is None or when.k != 'real' or len(ups) != 1 or 'freq' not in sets:
+        return z3.BoolVal(False)
+    ok = (sets['freq'][0] < ups[0]                                               # detuned frequency before the values are resolved
+          and msg.k == 'list' and msg.items is not None and len(msg.items) == 3
+          and msg.items[0].k == 'str' and msg.items[0].py == '/n_set'
+          and msg.items[1].k == 'obj' and msg.items[1].oid == 'stored.node_id'    # the SAME node
+          and msg.items[2].k == 'star' and msg.items[2].extra['seq'].k == 'obj'
+          and msg.items[2].extra['seq'].oid == 'the-updated-params')
+    return z3.And(z3.BoolVal(bool(ok)), when.z == z3.Real('server.latency'))
+
+
+def update_pol(eng, selfv, args, kwargs, st, node):
+    st.trace.append(('update-params',))
+    return [(st, V('obj', oid='the-updated-params'))]
+
+
+contract(F, '_MonoSetEvent.play', props=('C14', 'C17'), params={'self': 'self'},
+         ensures=[('one-n_set-bundle-at-latency-for-the-same-node-with-the-updated-parameters', mono_set_post)],
+         fields={'_MonoSetEvent': {}}, class_modules={'_MonoSetEvent': F},
+         **dict(MONO_COMMON, policies=dict(MONO_COMMON['policies'], **{'_MonoSetEvent._update_msg_params': update_pol}),
+                opts={'star_in_display_to_ghost': True}))
